@@ -1818,3 +1818,276 @@ def oracle_c11(tables, seed, tier, deep):
 
 
 ORACLES["C11"] = oracle_c11
+
+
+# ------------------------------------------------------------------------------------------- C16 / C17 / C20 (Atlas mode, whole program)
+
+ATLAS_LINES = [
+    b'{"t":{"$date":"2024-01-01T00:00:00.000+00:00"},"s":"I","c":"COMMAND","id":51803,"ctx":"conn1","msg":"Slow query","attr":{"ns":"shop.orders","remote":"10.1.2.3:5555","command":{"find":"orders","filter":{"customer":"zqatlassecret%d","n":%d},"$db":"shop"},"durationMillis":12}}',
+    b'{"t":{"$date":"2024-01-01T00:00:01.000+00:00"},"s":"I","c":"NETWORK","id":22943,"ctx":"listener","msg":"Connection accepted","attr":{"remote":"10.1.2.3:5555","connectionId":%d,"x":%d}}',
+    b'not json at all %d %d',
+    b'',
+]
+
+
+def atlas_payload(rng, host_i, nlines):
+    out = []
+    for j in range(nlines):
+        tpl = ATLAS_LINES[rng.below(len(ATLAS_LINES))]
+        out.append(tpl % (host_i * 1000 + j, j) if b"%d" in tpl else tpl)
+    return b"\n".join(out) + (b"\n" if out and rng.chance(3, 4) else b"")
+
+
+def run_atlas(sc, work, flags=(), dates=None, key_via="flag", pub="pubkey", priv="privkey", out_block=None, timeout=90):
+    """run the real CLI in Atlas mode against a fake endpoint; returns dict with rc, stdout, stderr, log, tmp listing, outputs"""
+    import fakeatlas, tempfile
+    sc.public, sc.private = pub, priv.strip()
+    fake = fakeatlas.Fake(sc)
+    d = tempfile.mkdtemp(prefix="atl_", dir=work)
+    tmpd = os.path.join(d, "tmp")
+    outd = os.path.join(d, "out")
+    os.mkdir(tmpd)
+    os.mkdir(outd)
+    out = os.path.join(outd, "mongod.redacted.log")
+    if out_block is not None:
+        os.mkdir(out + ".%d" % out_block)          # a directory where <out>.<i> should be created
+    args = ["redact", "--atlasProjectId", "proj1", "--atlasClusterName", "clu1", "-o", out] + list(flags)
+    env = {"VERIF_ATLAS_ENDPOINT": fake.url, "TMPDIR": tmpd, "ATLAS_PUBLIC_KEY": "", "ATLAS_PRIVATE_KEY": ""}
+    if key_via == "flag":
+        args += ["--atlasPublicKey", pub, "--atlasPrivateKey", priv]
+    else:
+        env["ATLAS_PUBLIC_KEY"], env["ATLAS_PRIVATE_KEY"] = pub, priv
+    if dates:
+        args += ["--atlasLogStartDate", str(dates[0]), "--atlasLogEndDate", str(dates[1])]
+    t0 = int(time.time())
+    try:
+        rc, so, se = run_cli(args, env=env, cwd=outd, timeout=timeout)
+    finally:
+        fake.close()
+    t1 = int(time.time())
+    outs = {}
+    for fn in sorted(os.listdir(outd)):
+        p = os.path.join(outd, fn)
+        if os.path.isfile(p):
+            outs[fn] = open(p, "rb").read()
+    tmp_left = {}
+    for root, _, fns in os.walk(tmpd):
+        for fn in fns:
+            tmp_left[os.path.relpath(os.path.join(root, fn), tmpd)] = open(os.path.join(root, fn), "rb").read()
+    return {"rc": rc, "stdout": so, "stderr": se, "log": list(fake.log), "tmp_left": tmp_left, "outputs": outs, "dir": d, "t0": t0, "t1": t1, "args": args, "out": out}
+
+
+def expected_redaction(payload_plain, flags, work):
+    """what the tool itself produces for the same bytes given as a plain file with the same redaction flags"""
+    import tempfile
+    d = tempfile.mkdtemp(prefix="exp_", dir=work)
+    p = os.path.join(d, "in.log")
+    open(p, "wb").write(payload_plain)
+    o = os.path.join(d, "o.log")
+    rc, so, se = run_cli(["redact", p, "-o", o] + list(flags), cwd=d)
+    return rc, (open(o, "rb").read() if os.path.exists(o) else b"")
+
+
+def atlas_scenarios(rng, big):
+    import fakeatlas
+    scs = []
+    hostsets = [["h0.example.net:27017"], ["a-shard-00-00.abc.mongodb.net:27017", "a-shard-00-01.abc.mongodb.net:27017", "a-shard-00-02.abc.mongodb.net:27017"],
+                ["n1.example.net", "n2.example.net:1", "n3.example.net:65535", "n4.example.net", "n5.example.net:27017"], ["same.example.net:27017", "same.example.net:27018"]]
+    for hs in hostsets if big else hostsets[:3]:
+        plains = [atlas_payload(rng, i, [0, 1, 2, 7, 40][rng.below(5)]) for i in range(len(hs))]
+        scs.append((hs, plains))
+    return scs
+
+
+def oracle_c16(tables, seed, tier, deep):
+    import fakeatlas, tempfile, shutil, urllib.parse
+    big = tier == "thorough" or deep
+    rng = SplitMix(seed ^ 0xC16)
+    work = tempfile.mkdtemp(prefix="verif_c16_")
+    viol, dist = [], collections.Counter()
+    n = 0
+    try:
+        flagsets = [[], ["--redactNumbers", "--redactIPs"], ["--redactNamespaces", "--replacement", "X"]] if big else [[], ["--redactNumbers", "--redactIPs", "--redactNamespaces"]]
+        for hs, plains in atlas_scenarios(rng, big):
+            for fi, flags in enumerate(flagsets):
+                for dates in ([None, (1700000000, 1700003600)] if (big or fi == 0) else [None]):
+                    payloads = [fakeatlas.gz(p, members=(1 if i % 2 == 0 else 3)) for i, p in enumerate(plains)]
+                    sc = fakeatlas.Scenario(hs, payloads)
+                    r = run_atlas(sc, work, flags=flags, dates=dates, key_via=("env" if fi % 2 else "flag"))
+                    n += 1
+                    rep = {"cfg": " ".join(flags), "cli_flags": r["args"][1:], "input": "hosts=%r dates=%r" % (hs, dates)}
+                    dist["hosts=%d" % len(hs)] += 1
+                    if r["rc"] != 0:
+                        viol.append(dict(rep, site="atlas:failed", detail="fault-free Atlas job exited %d: %s" % (r["rc"], r["stderr"][-300:])))
+                        continue
+                    authed = [e for e in r["log"] if e["authed"]]
+                    unauth = [e for e in r["log"] if not e["authed"]]
+                    names = [h.split(":")[0] for h in hs]
+                    want_paths = ["/api/atlas/v2/groups/proj1/clusters/clu1"] + ["/api/atlas/v2/groups/proj1/clusters/%s/logs/mongodb.gz" % h for h in names]
+                    got_paths = [e["path"] for e in authed]
+                    if got_paths != want_paths:
+                        viol.append(dict(rep, site="atlas:requests", detail="authenticated requests %r, expected %r" % (got_paths, want_paths)))
+                    # at most one unauthenticated twin per authenticated request, same path
+                    for pth in set(e["path"] for e in unauth):
+                        if sum(1 for e in unauth if e["path"] == pth) > sum(1 for e in authed if e["path"] == pth):
+                            viol.append(dict(rep, site="atlas:extra-unauthenticated", detail="more unauthenticated than authenticated requests for %s" % pth))
+                    if any(not e.get("digest_valid") for e in authed):
+                        viol.append(dict(rep, site="atlas:bad-digest", detail="an authenticated request does not carry a valid digest response"))
+                    for e in authed[1:]:
+                        q = dict(urllib.parse.parse_qsl(e["query"]))
+                        try:
+                            s_, e_ = int(q.get("startDate", "x")), int(q.get("endDate", "x"))
+                        except ValueError:
+                            viol.append(dict(rep, site="atlas:window", detail="query %r" % e["query"]))
+                            continue
+                        if set(q) != {"startDate", "endDate"}:
+                            viol.append(dict(rep, site="atlas:query-params", detail="query parameters %r" % sorted(q)))
+                        if dates:
+                            if (s_, e_) != dates:
+                                viol.append(dict(rep, site="atlas:window", detail="requested window %r, sent %r" % (dates, (s_, e_))))
+                        else:
+                            if not (r["t0"] - 2 <= e_ <= r["t1"] + 2 and e_ - s_ == 7 * 24 * 3600 and s_ < e_):
+                                viol.append(dict(rep, site="atlas:default-window", detail="default window sent as start=%d end=%d (now in [%d,%d])" % (s_, e_, r["t0"], r["t1"])))
+                    # outputs: <out>.<i> = redaction of host i's log under the same flags
+                    base = os.path.basename(r["out"])
+                    for i, plain in enumerate(plains):
+                        rc2, exp = expected_redaction(plain, flags, work)
+                        got = r["outputs"].get("%s.%d" % (base, i))
+                        n += 1
+                        if got is None:
+                            viol.append(dict(rep, site="atlas:output-missing", detail="no %s.%d" % (base, i)))
+                        elif got != exp:
+                            viol.append(dict(rep, site="atlas:output-differs", detail="%s.%d differs from the redaction of host %d's log (%d vs %d bytes)" % (base, i, i, len(got), len(exp))))
+                    extra = [fn for fn in r["outputs"] if fn != base and not any(fn == "%s.%d" % (base, i) for i in range(len(plains)))]
+                    if extra:
+                        viol.append(dict(rep, site="atlas:extra-output", detail="unexpected output files %r" % extra))
+                    if r["tmp_left"]:
+                        viol.append(dict(rep, site="atlas:tmp-left", detail="temporary files left: %r" % sorted(r["tmp_left"])))
+    finally:
+        shutil.rmtree(work, ignore_errors=True)
+    return result(viol, n, n, "whole program against an in-process fake Atlas endpoint (digest challenge): clusters with 1..5 hosts with / without ports, payloads empty / small / multi-member gzip, flag sets, given and default window, key pair by flag or environment; request log (order, paths, query, valid digest, unauthenticated twins), every <out>.<i> byte-compared with the tool's own redaction of the same bytes given as a file",
+                  dist, [{"hosts": 3}])
+
+
+ATLAS_FAULTS = ["cluster-http500", "cluster-reset", "cluster-http401", "host-http500", "host-http403", "host-http404", "host-reset", "host-cut0", "host-cut", "not-gzip", "long-line", "out-blocked", "srv", "none"]
+
+
+def oracle_c17(tables, seed, tier, deep):
+    import fakeatlas, tempfile, shutil
+    big = tier == "thorough" or deep
+    rng = SplitMix(seed ^ 0xC17)
+    work = tempfile.mkdtemp(prefix="verif_c17_")
+    viol, dist = [], collections.Counter()
+    n = 0
+    try:
+        for nh in ([1, 2, 3, 4] if big else [1, 3]):
+            hs = ["h%d.example.net:27017" % i for i in range(nh)]
+            for fault in ATLAS_FAULTS:
+                ks = range(nh) if (fault.startswith("host-") or fault in ("not-gzip", "long-line", "out-blocked")) else [0]
+                for k in ks:
+                    plains = [atlas_payload(rng, i, 5) for i in range(nh)]
+                    payloads = [fakeatlas.gz(p) for p in plains]
+                    faults, cf, out_block, srv = {}, None, None, False
+                    if fault == "cluster-http500":
+                        cf = ("http", 500)
+                    elif fault == "cluster-reset":
+                        cf = ("reset",)
+                    elif fault == "cluster-http401":
+                        cf = ("http", 401)
+                    elif fault.startswith("host-http"):
+                        faults[k] = ("http", int(fault[9:]))
+                    elif fault == "host-reset":
+                        faults[k] = ("reset",)
+                    elif fault == "host-cut0":
+                        faults[k] = ("cut", 0)
+                    elif fault == "host-cut":
+                        faults[k] = ("cut", max(1, len(payloads[k]) // 2))
+                    elif fault == "not-gzip":
+                        payloads[k] = b"this is not gzip data\n" * 10
+                    elif fault == "long-line":
+                        payloads[k] = fakeatlas.gz(plains[k] + b'{"x":"' + b"y" * 70000 + b'"}\n')
+                    elif fault == "out-blocked":
+                        out_block = k
+                    elif fault == "srv":
+                        srv = True
+                    sc = fakeatlas.Scenario(hs, payloads, faults=faults, cluster_fault=cf, srv=srv)
+                    r = run_atlas(sc, work, out_block=out_block)
+                    n += 1
+                    dist[fault] += 1
+                    rep = {"cfg": "-", "cli_flags": r["args"][1:], "input": "hosts=%d fault=%s at %d" % (nh, fault, k)}
+                    if r["tmp_left"]:
+                        viol.append(dict(rep, site="tmp-left:" + fault, detail="after fault %s at host/file %d of %d (exit %d) the temporary directory still holds %r" % (fault, k, nh, r["rc"], sorted(r["tmp_left"]))))
+                    if fault != "none" and r["rc"] == 0:
+                        viol.append(dict(rep, site="fault-exit0:" + fault, detail="fault %s at %d but exit status 0" % (fault, k)))
+                    if fault == "none" and r["rc"] != 0:
+                        viol.append(dict(rep, site="atlas:failed", detail="fault-free job exited %d: %s" % (r["rc"], r["stderr"][-200:])))
+                    if b"panic" in r["stderr"] or b"goroutine " in r["stderr"]:
+                        viol.append(dict(rep, site="panic:" + fault, detail=r["stderr"][-300:].decode("utf-8", "replace")))
+    finally:
+        shutil.rmtree(work, ignore_errors=True)
+    return result(viol, n, n, "whole program against the fake endpoint, private TMPDIR listed after every run: cluster lookup failing (status / reset / 401), the k-th host failing (500 / 403 / 404 / reset / body cut at 0 and mid-way), a payload that is not gzip, a payload with an over-long line, <out>.<k> not creatable, SRV connection string, and success; for 1..4 hosts and every k",
+                  dist, [{"faults": ATLAS_FAULTS}])
+
+
+def key_encodings(priv):
+    import urllib.parse
+    raw = priv.encode("utf-8")
+    encs = {"verbatim": raw, "trimmed": raw.strip(), "urlencoded": urllib.parse.quote(priv, safe="").encode(), "urlencoded+": urllib.parse.quote_plus(priv).encode(),
+            "base64": base64.b64encode(raw), "base64url": base64.urlsafe_b64encode(raw), "hex": binascii.hexlify(raw), "HEX": binascii.hexlify(raw).upper()}
+    return {k: v for k, v in encs.items() if len(v) >= 6}
+
+
+def oracle_c20(tables, seed, tier, deep):
+    import fakeatlas, tempfile, shutil
+    big = tier == "thorough" or deep
+    rng = SplitMix(seed ^ 0xC20)
+    work = tempfile.mkdtemp(prefix="verif_c20_")
+    viol, dist = [], collections.Counter()
+    n = 0
+    keys = ["zqPRIVATEkey-0123456789", "pri v/key+with=odd&chars%zq", "zqtrailingspacekey ", "zqnewlinekey123\n"] if big else ["zqPRIVATEkey-0123456789", "pri v/key+with=odd&chars%zq", "zqnewlinekey123\n"]
+    scen = [("digest", {}, None, False), ("none", {}, None, False), ("basic", {}, None, False), ("reject", {}, None, False), ("digest", {}, None, True),
+            ("digest", {1: ("http", 500)}, None, True), ("digest", {0: ("http", 403)}, None, True), ("digest", {1: ("cut", 30)}, None, False), ("digest", {}, ("http", 500), True),
+            ("digest", {0: ("reset",)}, None, False), ("basic", {}, None, True)]
+    try:
+        for ki, priv in enumerate(keys):
+            for si, (auth, faults, cf, echo) in enumerate(scen):
+                if not big and ki > 0 and si not in (0, 2, 4):
+                    continue
+                hs = ["h0.example.net:27017", "h1.example.net:27017"]
+                payloads = [fakeatlas.gz(atlas_payload(rng, i, 4)) for i in range(2)]
+                sc = fakeatlas.Scenario(hs, payloads, auth=auth, faults=faults, cluster_fault=cf, echo=echo)
+                via = "env" if (ki + si) % 2 else "flag"
+                r = run_atlas(sc, work, key_via=via, pub="zqpublickey", priv=priv)
+                n += 1
+                dist[auth + ("+echo" if echo else "") + ("+fault" if faults or cf else "")] += 1
+                rep = {"cfg": "-", "cli_flags": [a if a != priv else "<PRIVATE KEY>" for a in r["args"][1:]], "input": "auth=%s faults=%r cluster_fault=%r echo=%r key#%d via %s" % (auth, faults, cf, echo, ki, via)}
+                encs = key_encodings(priv)
+                pair = ("zqpublickey:" + priv.strip()).encode()
+                encs["basic-pair"] = base64.b64encode(pair)
+                encs["basic-pair-raw"] = base64.b64encode(("zqpublickey:" + priv).encode())
+                arte = {"stdout": r["stdout"], "stderr": r["stderr"]}
+                for fn, b in r["outputs"].items():
+                    arte["output:" + fn] = b
+                for fn, b in r["tmp_left"].items():
+                    arte["tmp:" + fn] = b
+                for i, e in enumerate(r["log"]):
+                    arte["request#%d" % i] = ("%s %s?%s\n" % (e["method"], e["path"], e["query"]) + "\n".join("%s: %s" % kv for kv in e["headers"].items())).encode("utf-8", "replace")
+                for where, blob in arte.items():
+                    for ename, eb in encs.items():
+                        if eb and eb in blob:
+                            viol.append(dict(rep, site="key-leak:%s:%s" % (where.split("#")[0].split(":")[0], ename), detail="the private key (%s) occurs in %s" % (ename, where)))
+                # no challenge -> no credential material at all
+                if auth == "none":
+                    if any(e["authed"] for e in r["log"]):
+                        viol.append(dict(rep, site="key-leak:unsolicited-authorization", detail="an Authorization header was sent although the server never sent a challenge"))
+                if auth == "basic" and any(e["authed"] for e in r["log"]):
+                    viol.append(dict(rep, site="key-leak:basic", detail="credentials were sent in answer to a Basic challenge"))
+    finally:
+        shutil.rmtree(work, ignore_errors=True)
+    return result(viol, n, n, "whole program against the fake endpoint: digest challenge / no challenge / Basic challenge / 401 after authentication, bodies that echo the request, HTTP errors, cut bodies, connection resets; private keys with URL- and shell-special characters and trailing white space, given by flag or environment; every captured artefact (each request line + headers, stdout, stderr, output files, temporary files) searched for the key verbatim, trimmed, URL-encoded, base64 / base64url, hex, and as a Basic user:password pair",
+                  dist, [{"scenarios": len(scen), "keys": len(keys)}])
+
+
+ORACLES["C16"] = oracle_c16
+ORACLES["C17"] = oracle_c17
+ORACLES["C20"] = oracle_c20
